@@ -27,7 +27,7 @@ HEnter ==
   /\ Is("HEnter")
   /\ <<Ev.kind, Ev.arg, Ev.padlen, Ev.padsum>> \in issued
   /\ Ev.arg \notin entered
-  /\ Ev.meta = "m-" \o Ev.arg
+  /\ Ev.metaok        \* the complete metadata (every key in order, empty values, repeated keys) is the sender's
   /\ entered' = entered \cup {Ev.arg} /\ UNCHANGED <<issued, ok, calls>> /\ Step
 \* ... and still the same at handler exit
 HRecheck == Is("HRecheck") /\ Ev.same /\ UNCHANGED <<issued, entered, ok, calls>> /\ Step
